@@ -22,6 +22,11 @@ THEOREMS = [
     "PV.C18.format_int_eq_partial",
     "PV.C18.format_str_eq_partial",
     "PV.C18.format_bool_eq_partial",
+    "PV.C18.format_float_eq_partial",
+    "PV.C18.formatFloat_eq",
+    "PV.C18.general_eq_layout",
+    "PV.C18.repr_eq_layout",
+    "PV.C18.float_assemble",
     "PV.C18.no_panic_str",
     "PV.C18.no_panic_partial",
     "PV.C18.format_eq_fails",
@@ -29,6 +34,7 @@ THEOREMS = [
     "PV.C18.dev_c_surrogate",
     "PV.C18.dev_z_flag_float",
     "PV.C18.dev_int_above_f64max",
+    "PV.C18.dev_float_tie_not_in_facts",
     "PV.C18.dev_float_tie",
     "PV.C18.repaired_conv_prefix",
     "PV.C18.repaired_group_exp",
@@ -59,7 +65,8 @@ TRUSTED = [
     "get_separator_interval, add_magnitude_separators, separate_integer, insert_separator, format_sign_and_align, "
     "format_int/float/string/bool), tied to the code by the correspondence streams of this run",
     "float text: PV.C17 model of literal/src/float.rs on top of the exact decimal arithmetic PV.Dec (contract of Rust "
-    "{:.N} / {:.Ne} / {:e} / Display on f64), sampled here, verified nowhere",
+    "{:.N} / {:.Ne} / {:e} / Display on f64 and of CPython's digit generation), sampled here and by C17's "
+    "dec-primitives stream; FloatDigitFacts (hypothesis of format_float_eq_partial) evaluated on every sampled double",
     "contracts of malachite BigInt::to_str_radix, BigInt::to_f64 (nearest, None beyond f64::MAX), f64 * 100.0, "
     "char::from_u32, String::truncate/insert",
     "lean/PV/C18/Spec.lean as the reading of the language reference (validated against CPython 3.11.7 on every run: "
@@ -70,13 +77,19 @@ TRUSTED = [
 PARTIAL = [
     "full: parse_spec_eq, parse_spec_rejects, insertSeparator_eq_groupRight, group_spec, group_zero_padding_spec, "
     "align_spec, zero_flag_spec, no_panic_str (every spec string, every text shorter than 2^30)",
-    "format_int/str/bool_eq_partial and no_panic_partial hold on the decidable InDomain, which now excludes only: "
-    "'=' alignment and a padding '0' flag on str (the parser folds the flag into align), 'c' on a surrogate code "
-    "point (a Rust String cannot hold it), float presentation types on int/bool, width >= 2^30, |n| >= 2^(2^28); "
-    "each remaining deviating shape is a listed known finding with a decide'd witness (Thm.lean section 7)",
-    "parse_spec_complete_partial: the 'z' flag and widths/precisions above i32::MAX are rejected by the parser",
-    "float formatting (types e E f F g G n % and none on doubles, and on ints/bools through to_f64) is modelled and "
-    "tied by correspondence + CPython oracle but has no Lean equality theorem (the reference would be PV.Dec itself)",
+    "format_int/str/bool/float_eq_partial and no_panic_partial hold on the decidable InDomain, which excludes only: "
+    "the 'z' flag (PEP 682, unknown to the parser), 'c' on a surrogate code point (a Rust String cannot hold it), "
+    "float presentation types on int/bool (BigInt::to_f64 contract), width >= 2^30, |n| >= 2^(2^28), a float magnitude "
+    "of 2^30 or more characters; each remaining deviating shape is a listed known finding with a decide'd witness "
+    "(Thm.lean section 7)",
+    "format_float_eq_partial is relative to explicit, decidable digit-generation facts about PV.Dec (FloatDigitFacts): "
+    "GenDigits for g/G/n and precision-without-type (rounding to P significant digits and to P-1-X decimals give the "
+    "same digits), x*100 is a non-negative non-NaN double for '%', ReprDigits for the repr-style presentation "
+    "(CPython's and Rust's shortest digits agree - false exactly on the listed finding float-repr-tie-rounds-up -, "
+    "integers have their integer digits, non-integers a fraction); nothing for e/E/f/F. The facts are evaluated by "
+    "the driver on every double of the run (coverage.float_digit_facts), not proved for all doubles",
+    "parse_spec_complete_partial: the 'z' flag, widths above i32::MAX and precisions above isize::MAX are rejected by "
+    "the parser (the latter two also by CPython: MemoryError / 'Too many decimal digits')",
 ]
 READY = True
 TECHNIQUE = ("Lean 4 theorems over a hand-written model of format.rs + exhaustive small-scope / random differential "
@@ -84,9 +97,11 @@ TECHNIQUE = ("Lean 4 theorems over a hand-written model of format.rs + exhaustiv
 LEVEL_TEXT = ("Machine-checked Lean 4 theorems about the repaired format.rs: for every spec string the modelled parser "
               "equals the reference grammar (full), separate_integer/insert_separator equal Python's grouping with zero "
               "padding for all digit strings and widths (full), format_sign_and_align equals Python's padding (full), "
-              "format_string never panics on any spec (full), and format_int/format_string/format_bool equal the "
+              "format_string never panics on any spec (full), and format_int/format_string/format_bool/format_float equal the "
               "reference pyFormat on an explicit decidable domain that excludes only the shapes still listed as known "
-              "findings (each with a witnessed deviation) and float presentation types. The model is tied to the Rust code on every run by exhaustive (all specs of length <= 3/4 over a "
+              "findings (each with a witnessed deviation) and absurd sizes; the float equality covers every presentation "
+              "type, precision, fill/alignment/sign/zero flag/grouping/alternate form, NaN and infinities, relative to "
+              "explicit digit-generation facts about PV.Dec. The model is tied to the Rust code on every run by exhaustive (all specs of length <= 3/4 over a "
               "29-symbol alphabet x 30 values) and random correspondence, and the real code is judged by CPython.")
 LEVEL_NOTE = ("Trusted: Lean kernel, model fidelity as sampled, PV.Dec/PV.C17 as the meaning of Rust float printing, "
               "bigint/char/String contracts, harness, generator, CPython 3.11.7 as the meaning of Python.")
@@ -252,7 +267,8 @@ def expected(spec, kind, value):
             return "err"        # not in the grammar / CPython: "Too many decimal digits in format string"
         if p.prec is not None and p.prec >= HUGE and kind != "s":
             if kind == "f" or p.type in FLOAT_TYPES:
-                return None
+                # a float precision above INT_MAX: "precision too big"; below it CPython would print the digits
+                return "err" if p.prec > 2 ** 31 - 1 else None
             return "err"        # "Precision not allowed in integer format specifier"
         if p.width is not None and p.width >= HUGE:
             i = spec.index(str(p.width))
@@ -615,6 +631,9 @@ def _validate_spec(ctx):
     for _, s, v in PROBES:
         if max_number(s) < 20000:
             reqs.append(mkreq(s, [v]))
+    for s in [".2147483648f", ".2147483648", ".2147483648%", ".2147483648g", ".2147483648x", ",.2147483648e",
+              ".2147483648s", ".9223372036854775807", ".2147483648n", "z.2147483648f"]:
+        reqs.append(mkreq(s, [1.0, float("inf"), float("nan"), 1, True, "a"]))
     outs = core.run_lines([drv], ["py" + r for r in reqs], jobs=4 if ctx.quick else 16)
     checked = bad = 0
     examples = []
@@ -639,18 +658,31 @@ def _validate_spec(ctx):
     # how much of the input space the theorems' domain covers, and that it avoids every listed shape
     dreqs = reqs[:25260] if len(reqs) > 25260 else reqs
     douts = core.run_lines([drv], ["dom" + r[3:] for r in dreqs], jobs=4 if ctx.quick else 16)
+    fouts = core.run_lines([drv], ["ffacts" + r[3:] for r in dreqs], jobs=4 if ctx.quick else 16)
     tot = ins = clash = free_out = 0
+    ftot = fin = ffalse = ffalse_unexplained = 0
     clashes = []
-    for r, o in zip(dreqs, douts):
+    fex = []
+    for r, o, fo in zip(dreqs, douts, fouts):
         spec, vals = parse_req(r)
         res = o.split(" ")
-        if len(res) != len(vals):
+        fres = fo.split(" ")
+        if len(res) != len(vals) or len(fres) != len(vals):
             continue
-        for (k, v), d in zip(vals, res):
-            if k == "f":
-                continue
+        for (k, v), d, f in zip(vals, res, fres):
             tot += 1
             sh = shape(spec, k, v)
+            if k == "f":
+                ftot += 1
+                if f == "0":
+                    ffalse += 1
+                    pp = py_parse_spec(spec)
+                    if not (pp is not None and pp.type is None and pp.prec is None and math.isfinite(v) and _repr_tie_even(v)):
+                        ffalse_unexplained += 1
+                        if len(fex) < 5:
+                            fex.append(f"{spec!r} {v!r}")
+                d = "1" if (d == "1" and f == "1") else "0"
+                fin += d == "1"
             if d == "1":
                 ins += 1
                 if sh is not None:
@@ -660,11 +692,20 @@ def _validate_spec(ctx):
             elif sh is None:
                 free_out += 1
     ctx.extra["theorem_domain"] = {
-        "what": "Lean InDomain (Thm.lean) evaluated on the exhaustive len<=3 specs x fixed int/str/bool values",
+        "what": "Lean InDomain (Thm.lean; for doubles: InDomain and FloatDigitFacts) evaluated on the exhaustive "
+                "len<=3 specs x fixed values and the random spec-validation lines",
         "pairs": tot, "in_domain": ins, "in_domain_with_known_shape": clash, "examples": clashes,
         "outside_domain_without_known_shape": free_out}
+    ctx.extra["float_digit_facts"] = {
+        "what": "FloatDigitFacts (GenDigits / ReprDigits / '%' product facts of PV.Dec: the hypothesis of "
+                "format_float_eq_partial) decided by the driver for every (spec, double) pair above",
+        "pairs": ftot, "in_domain_and_facts_hold": fin, "facts_false": ffalse,
+        "facts_false_not_explained_by_repr_tie_finding": ffalse_unexplained, "examples": fex}
     if clash:
         ctx.notes.append(f"InDomain contains {clash} inputs that have a known-finding shape, e.g. {clashes[:2]}")
+    if ffalse_unexplained:
+        ctx.notes.append(f"FloatDigitFacts is false on {ffalse_unexplained} (spec, double) pairs that are not repr ties, "
+                         f"e.g. {fex[:2]}")
 
 
 def streams(ctx):
